@@ -9,8 +9,9 @@ ID = "C17"
 LEVEL = "exploration"
 TECHNIQUE = (
     "fuzzing with a semantic oracle inside the target: valid generated protos put through structured field-level "
-    "mutators and byte-level mutation (Hypothesis-driven; the same entry function is exposed to atheris in "
-    "tools/fuzz_c17.py), then invariant check (C01 oracle), serialize/deserialize fixpoint and a file-access monitor"
+    "mutators and byte-level mutation (Hypothesis-driven) and, in the thorough tier, a coverage-guided libFuzzer "
+    "campaign per shard (atheris, tools/fuzz_c17.py, onnx_ir instrumented, seeded with generated protos, one shard from "
+    "an empty corpus) through the same oracle function; then invariant check (C01 oracle), serialize/deserialize fixpoint and a file-access monitor"
 )
 LEVEL_TEXT = (
     "Generated exploration of malformed inputs: (a) field-level mutations of valid generated protos, (b) byte-level "
@@ -395,6 +396,16 @@ def execute(case):
 
     from vlib import protogen
 
+    if "raw" in case:  # an input found by the coverage-guided tier (tools/fuzz_c17.py): base64 of the wire bytes
+        import base64
+
+        mp = onnx.ModelProto()
+        try:
+            mp.ParseFromString(base64.b64decode(case["raw"]))
+        except Exception:
+            return dict(failures=[], nontrivial=False, classes=["malformed"])
+        fails, model, stage = check_proto(mp, "from_proto(raw)")
+        return dict(failures=fails, nontrivial=stage in ("returned", "raised-nested"), classes=["raw_bytes", stage])
     try:
         mp, features = protogen.build_model(case["tape"], case.get("irv") or None)
         applied = mutate(mp, case.get("muts", []))
@@ -420,6 +431,75 @@ def execute(case):
         classes.append(f"mut{k}")
     nontrivial = applied > 0 and stage in ("returned", "raised-nested")
     return dict(failures=fails, nontrivial=nontrivial, classes=sorted(set(classes)))
+
+
+FUZZ_RUNS = {"quick": 0, "thorough": 40000}
+
+
+def extra(tier, seed, shard, col):
+    """Coverage-guided tier: one atheris/libFuzzer campaign per shard (thorough only), seeded with valid generated
+    protos.  Findings come back as files and are recorded like any other case ({"raw": base64})."""
+    import base64
+    import json
+    import shutil
+    import subprocess
+    import sys
+    import tempfile
+
+    from vlib import protogen
+
+    runs = int(FUZZ_RUNS.get(tier, 0) * float(os.environ.get("VERIF_SCALE", "1")))
+    if runs <= 0:
+        return
+    root = os.path.dirname(os.path.dirname(os.path.abspath(__file__)))
+    if not os.path.isdir(os.path.join(root, ".deps", "atheris")):
+        col.extra["atheris"] = "not installed (setup.sh installs it from the offline wheelhouse); tier skipped"
+        return
+    work = tempfile.mkdtemp(prefix="verif_c17_fuzz_")
+    try:
+        corpus = os.path.join(work, "corpus")
+        found = os.path.join(work, "found")
+        os.makedirs(corpus)
+        # seed corpus: 24 generated valid protos (deterministic in seed/shard); shard 0 additionally starts EMPTY
+        if shard != 0:
+            for k in range(24):
+                tape = [(seed * 7919 + shard * 104729 + k * 31 + j * j * 17) % 65537 for j in range(60 + 10 * k)]
+                try:
+                    mp, _ = protogen.build_model(tape, [None, 8, 11, 13][k % 4])
+                    with open(os.path.join(corpus, f"seed{k}.bin"), "wb") as f:
+                        f.write(mp.SerializeToString())
+                except Exception:
+                    pass
+        env = dict(os.environ, PYTHONHASHSEED="0")
+        cmd = [sys.executable, os.path.join(root, "tools", "fuzz_c17.py"), found, corpus, f"-runs={runs}", f"-seed={seed * 1000 + shard + 1}",
+               "-max_len=6000", "-timeout=60", "-rss_limit_mb=4096", "-print_final_stats=0", f"-artifact_prefix={work}/"]
+        r = subprocess.run(cmd, capture_output=True, text=True, env=env, timeout=3 * 3600)
+        stats = {}
+        try:
+            stats = json.load(open(os.path.join(found, "stats.json")))
+        except Exception:
+            col.errors.append("atheris campaign produced no stats: rc=%s %s" % (r.returncode, (r.stderr or "")[-600:]))
+            return
+        col.extra["fuzz_execs"] = col.extra.get("fuzz_execs", 0) + stats.get("execs", 0)
+        col.extra["fuzz_decoded_as_model"] = col.extra.get("fuzz_decoded_as_model", 0) + stats.get("decoded", 0)
+        col.extra["fuzz_returned_ir"] = col.extra.get("fuzz_returned_ir", 0) + stats.get("returned", 0)
+        col.extra["fuzz_corpus_units"] = col.extra.get("fuzz_corpus_units", 0) + len(os.listdir(corpus))
+        for f in sorted(os.listdir(found)):
+            if f.endswith(".bin"):
+                data = open(os.path.join(found, f), "rb").read()
+                case = {"raw": base64.b64encode(data).decode()}
+                col.record(case, execute(case))
+        # crash-/timeout- artifacts of libFuzzer itself (python exceptions escaping the oracle, hangs)
+        for f in sorted(os.listdir(work)):
+            if f.startswith(("crash-", "timeout-", "oom-")):
+                data = open(os.path.join(work, f), "rb").read()
+                case = {"raw": base64.b64encode(data).decode()}
+                out = execute(case)
+                if f.startswith("timeout-") and not out["failures"]:
+                    out["classes"].append("fuzz_timeout_artifact_inconclusive")
+                col.record(case, out)
+    finally:
+        shutil.rmtree(work, ignore_errors=True)
 
 
 def selftest():
